@@ -41,6 +41,9 @@ pub struct UniCfg {
     pub mount_api: MountApi,
     /// false: statx never reports a mount id
     pub statx_mntid: bool,
+    /// statx does not know STATX_MNT_ID_UNIQUE (Linux 5.8 - 6.7): the bit is ignored in the request
+    /// and only the old, reusable mount id comes back
+    pub statx_no_unique: bool,
     /// options to remount the namespace's /proc with ("" = leave alone)
     pub proc_opts: String,
     /// drop to uid 65534 without capabilities after set-up
@@ -52,7 +55,7 @@ pub struct UniCfg {
 
 impl Default for UniCfg {
     fn default() -> Self {
-        UniCfg { no_openat2: false, openat2_eperm: false, no_renameat2: false, mount_api: MountApi::Ok, statx_mntid: true, proc_opts: String::new(), unpriv: false, psym: None, workers: 1 }
+        UniCfg { no_openat2: false, openat2_eperm: false, no_renameat2: false, mount_api: MountApi::Ok, statx_mntid: true, statx_no_unique: false, proc_opts: String::new(), unpriv: false, psym: None, workers: 1 }
     }
 }
 
@@ -77,7 +80,7 @@ impl UniCfg {
                 MountApi::Eperm => "+mountapi-eperm",
                 MountApi::NoFsopen => "+nofsopen",
             },
-            if self.statx_mntid { "" } else { "+nomntid" },
+            if !self.statx_mntid { "+nomntid" } else if self.statx_no_unique { "+oldmntid" } else { "" },
             if self.proc_opts.is_empty() { String::new() } else { format!("+proc[{}]", self.proc_opts) },
             if self.unpriv { "+unpriv" } else { "" },
             match (self.psym, self.no_renameat2) {
@@ -94,6 +97,7 @@ impl UniCfg {
             "renameat2": !self.no_renameat2,
             "mount_api": match self.mount_api { MountApi::Ok => "ok", MountApi::Enosys => "enosys", MountApi::Eperm => "eperm", MountApi::NoFsopen => "nofsopen" },
             "statx_mnt_id": self.statx_mntid,
+            "statx_mnt_id_unique": !self.statx_no_unique,
             "proc": self.proc_opts,
             "unpriv": self.unpriv,
             "protected_symlinks": self.psym,
@@ -112,6 +116,7 @@ impl UniCfg {
                 _ => MountApi::Ok,
             },
             statx_mntid: v["statx_mnt_id"].as_bool().unwrap_or(true),
+            statx_no_unique: !v["statx_mnt_id_unique"].as_bool().unwrap_or(true),
             proc_opts: v["proc"].as_str().unwrap_or("").to_string(),
             unpriv: v["unpriv"].as_bool().unwrap_or(false),
             psym: v["protected_symlinks"].as_u64().map(|x| x as u32),
@@ -1523,6 +1528,19 @@ impl Universe {
                     unsafe {
                         (*stx).stx_mask &= !0x5000;
                         (*stx).stx_mnt_id = 0;
+                    }
+                    answer = Answer::Value(0);
+                } else {
+                    answer = Answer::Fail(sys::errno());
+                }
+            }
+            // configuration: statx that predates STATX_MNT_ID_UNIQUE
+            if self.cfg.statx_no_unique && self.cfg.statx_mntid && nr == libc::SYS_statx && answer == Answer::Continue && n.data.args[3] & 0x4000 != 0 {
+                let r = unsafe { libc::syscall(libc::SYS_statx, n.data.args[0], n.data.args[1], n.data.args[2], n.data.args[3] & !0x4000u64, n.data.args[4]) };
+                if r == 0 {
+                    let stx = n.data.args[4] as *mut libc::statx;
+                    unsafe {
+                        (*stx).stx_mask &= !0x4000;
                     }
                     answer = Answer::Value(0);
                 } else {
